@@ -12,6 +12,132 @@ open SoyVerif SoyVerif.Model SoyVerif.Model.JsGen SoyVerif.Lemmas.JsGenSpec SoyV
 /-- no line terminator: the text stays inside a `//` comment -/
 def CommentSafe (b : Bytes) : Prop := (∀ c ∈ b, c ≠ 10 ∧ c ≠ 13) ∧ SoyVerif.Spec.noLineSep b = true
 
+/-! ### the file name as visitSoyFile writes it (soyjs 086971f) is comment-safe, whatever the name -/
+
+namespace Comment
+open SoyVerif.Spec (isLineSep noLineSep)
+
+/-- utf8.EncodeRune on the code point itself -/
+def encN (n : Nat) : Bytes :=
+  if n < 0x80 then [UInt8.ofNat n]
+  else if n < 0x800 then [UInt8.ofNat (0xC0 + n / 64), UInt8.ofNat (0x80 + n % 64)]
+  else if n < 0x10000 then
+    [UInt8.ofNat (0xE0 + n / 4096), UInt8.ofNat (0x80 + (n / 64) % 64), UInt8.ofNat (0x80 + n % 64)]
+  else
+    [UInt8.ofNat (0xF0 + n / 262144), UInt8.ofNat (0x80 + (n / 4096) % 64),
+     UInt8.ofNat (0x80 + (n / 64) % 64), UInt8.ofNat (0x80 + n % 64)]
+
+theorem encodeRune_eq (r : Int) : Utf8.encodeRune r = encN (if Utf8.validRune r then r.toNat else Utf8.runeError) := rfl
+
+theorem ofNat_ne {k : Nat} {c : Nat} (hk : k < 256) (hc : k ≠ c) (hc2 : c < 256) : UInt8.ofNat k ≠ UInt8.ofNat c := by
+  intro h
+  have := congrArg UInt8.toNat h
+  simp at this
+  omega
+
+theorem isLineSep_ne (b : UInt8) (X : Bytes) (h : b ≠ 0xE2) : isLineSep (b :: X) = false := by
+  cases X with
+  | nil => simp [isLineSep]
+  | cons x X => cases X <;> simp [isLineSep, h]
+
+theorem isLineSep_ne2 (a b c : UInt8) (X : Bytes) (h : b ≠ 0x80) : isLineSep (a :: b :: c :: X) = false := by
+  simp [isLineSep, h]
+
+theorem isLineSep_ne3 (a b c : UInt8) (X : Bytes) (h1 : c ≠ 0xA8) (h2 : c ≠ 0xA9) : isLineSep (a :: b :: c :: X) = false := by
+  simp [isLineSep, h1, h2]
+
+theorem noLineSep_cons {c : UInt8} (hc : c ≠ 0xE2) (r : Bytes) : noLineSep (c :: r) = noLineSep r := by
+  simp [noLineSep, isLineSep_ne c r hc]
+
+theorem encN_bytes (n : Nat) (hn : n < 0x110000) (h10 : n ≠ 10) (h13 : n ≠ 13) : ∀ c ∈ encN n, c ≠ 10 ∧ c ≠ 13 := by
+  intro c hc
+  unfold encN at hc
+  split at hc
+  · simp only [List.mem_singleton] at hc; subst hc
+    exact ⟨ofNat_ne (c := 10) (by omega) h10 (by omega), ofNat_ne (c := 13) (by omega) h13 (by omega)⟩
+  · split at hc
+    · simp only [List.mem_cons, List.not_mem_nil, or_false] at hc
+      rcases hc with rfl | rfl <;> exact ⟨ofNat_ne (c := 10) (by omega) (by omega) (by omega), ofNat_ne (c := 13) (by omega) (by omega) (by omega)⟩
+    · split at hc
+      · simp only [List.mem_cons, List.not_mem_nil, or_false] at hc
+        rcases hc with rfl | rfl | rfl <;> exact ⟨ofNat_ne (c := 10) (by omega) (by omega) (by omega), ofNat_ne (c := 13) (by omega) (by omega) (by omega)⟩
+      · simp only [List.mem_cons, List.not_mem_nil, or_false] at hc
+        rcases hc with rfl | rfl | rfl | rfl <;> exact ⟨ofNat_ne (c := 10) (by omega) (by omega) (by omega), ofNat_ne (c := 13) (by omega) (by omega) (by omega)⟩
+
+theorem encN_lineSep (n : Nat) (hn : n < 0x110000) (h1 : n ≠ 0x2028) (h2 : n ≠ 0x2029) (rest : Bytes) :
+    noLineSep (encN n ++ rest) = noLineSep rest := by
+  unfold encN
+  split
+  · exact noLineSep_cons (ofNat_ne (c := 0xE2) (by omega) (by omega) (by omega)) _
+  · split
+    · simp only [List.cons_append, List.nil_append]
+      rw [noLineSep_cons (ofNat_ne (c := 0xE2) (by omega) (by omega) (by omega)), noLineSep_cons (ofNat_ne (c := 0xE2) (by omega) (by omega) (by omega))]
+    · split
+      · simp only [List.cons_append, List.nil_append]
+        have hsep : isLineSep (UInt8.ofNat (0xE0 + n / 4096) :: UInt8.ofNat (0x80 + (n / 64) % 64) :: UInt8.ofNat (0x80 + n % 64) :: rest) = false := by
+          by_cases he : n / 4096 = 2
+          · by_cases h3 : (n / 64) % 64 = 0
+            · have hne1 : UInt8.ofNat (0x80 + n % 64) ≠ 0xA8 := ofNat_ne (c := 0xA8) (by omega) (by omega) (by omega)
+              have hne2 : UInt8.ofNat (0x80 + n % 64) ≠ 0xA9 := ofNat_ne (c := 0xA9) (by omega) (by omega) (by omega)
+              exact isLineSep_ne3 _ _ _ _ hne1 hne2
+            · have hne : UInt8.ofNat (0x80 + (n / 64) % 64) ≠ 0x80 := ofNat_ne (c := 0x80) (by omega) (by omega) (by omega)
+              exact isLineSep_ne2 _ _ _ _ hne
+          · exact isLineSep_ne _ _ (ofNat_ne (c := 0xE2) (by omega) (by omega) (by omega))
+        rw [noLineSep, hsep, noLineSep_cons (ofNat_ne (c := 0xE2) (by omega) (by omega) (by omega)), noLineSep_cons (ofNat_ne (c := 0xE2) (by omega) (by omega) (by omega))]
+        simp
+      · simp only [List.cons_append, List.nil_append]
+        rw [noLineSep_cons (ofNat_ne (c := 0xE2) (by omega) (by omega) (by omega)), noLineSep_cons (ofNat_ne (c := 0xE2) (by omega) (by omega) (by omega)),
+          noLineSep_cons (ofNat_ne (c := 0xE2) (by omega) (by omega) (by omega)), noLineSep_cons (ofNat_ne (c := 0xE2) (by omega) (by omega) (by omega))]
+
+
+theorem commentRune_ok (r : Nat) :
+    commentRune r ≠ 10 ∧ commentRune r ≠ 13 ∧ commentRune r ≠ 0x2028 ∧ commentRune r ≠ 0x2029 := by
+  unfold commentRune
+  split
+  · decide
+  · rename_i h
+    simp only [Bool.or_eq_true, beq_iff_eq, not_or] at h
+    omega
+
+theorem enc_safe (k : Nat) (h : k ≠ 10 ∧ k ≠ 13 ∧ k ≠ 0x2028 ∧ k ≠ 0x2029) :
+    (∀ c ∈ Utf8.encodeRune k, c ≠ 10 ∧ c ≠ 13) ∧ ∀ rest, noLineSep (Utf8.encodeRune k ++ rest) = noLineSep rest := by
+  rw [encodeRune_eq]
+  have hn : (if Utf8.validRune (k : Int) then (k : Int).toNat else Utf8.runeError) < 0x110000 ∧
+      ((if Utf8.validRune (k : Int) then (k : Int).toNat else Utf8.runeError) = k ∨
+       (if Utf8.validRune (k : Int) then (k : Int).toNat else Utf8.runeError) = 0xFFFD) := by
+    by_cases hv : Utf8.validRune (k : Int) = true
+    · rw [if_pos hv]
+      simp only [Utf8.validRune, Bool.or_eq_true, Bool.and_eq_true, decide_eq_true_eq] at hv
+      omega
+    · rw [if_neg hv]; exact ⟨by decide, Or.inr rfl⟩
+  generalize (if Utf8.validRune (k : Int) then (k : Int).toNat else Utf8.runeError) = n at hn
+  have h' : n ≠ 10 ∧ n ≠ 13 ∧ n ≠ 0x2028 ∧ n ≠ 0x2029 := by omega
+  exact ⟨encN_bytes n hn.1 h'.1 h'.2.1, encN_lineSep n hn.1 h'.2.2.1 h'.2.2.2⟩
+
+theorem flat_safe : ∀ L : List Nat, CommentSafe (L.flatMap fun r => Utf8.encodeRune (commentRune r))
+  | [] => ⟨fun _ h => (nomatch h), rfl⟩
+  | r :: L => by
+    have ⟨h1, h2⟩ := enc_safe (commentRune r) (commentRune_ok r)
+    have ih := flat_safe L
+    simp only [List.flatMap_cons]
+    refine ⟨fun c hc => ?_, ?_⟩
+    · rcases List.mem_append.mp hc with hc | hc
+      · exact h1 c hc
+      · exact ih.1 c hc
+    · rw [h2]; exact ih.2
+
+end Comment
+
+/-- `strings.Map` has replaced every line terminator: the header comment holds ANY file name -/
+theorem commentName_safe (s : Bytes) : CommentSafe (commentName s) := Comment.flat_safe _
+
+-- hostile names: LF, CR, U+2028, U+2029 become a space; a byte that is not UTF-8 becomes U+FFFD (as strings.Map writes it)
+example : commentName b!"a\nb\r.soy" = b!"a b .soy" := by decide
+example : commentName [97, 0xE2, 0x80, 0xA8, 98, 0xE2, 0x80, 0xA9, 0xC3, 0xA9] = [97, 32, 98, 32, 0xC3, 0xA9] := by decide
+example : commentName [0xFF, 0xE2, 0x80, 10] = [0xEF, 0xBF, 0xBD, 0xEF, 0xBF, 0xBD, 0xEF, 0xBF, 0xBD, 32] := by decide
+example : commentName b!"dir/f.soy" = b!"dir/f.soy" := by decide
+example : ¬ CommentSafe b!"a\nb" := fun h => absurd rfl (h.1 10 (by decide)).1
+
 /-- what a piece written anywhere in a file may be -/
 def POkTop : Piece → Prop
   | .fixed _ => True
@@ -231,8 +357,9 @@ theorem top_walkTop : ∀ (cmds : List Cmd), (∀ c ∈ cmds, TopWN c) → TSpec
     rw [expectedHdrs_cons]
     exact TSpecI.bind (top_cmd sk o c (h c (by simp))) (fun _ => top_walkTop r (fun x hx => h x (by simp [hx])))
 
-/-- a file the parser produces: file-level nodes only, dotted names, a name without line terminators -/
-def FileWN (f : SoyFile) : Prop := CommentSafe f.name ∧ ∀ c ∈ f.body, TopWN c
+/-- a file the parser produces: file-level nodes only, dotted names.  (Nothing is asked of the file's name since
+    soyjs 086971f: `commentName_safe`.) -/
+def FileWN (f : SoyFile) : Prop := ∀ c ∈ f.body, TopWN c
 
 theorem TSpecI.step {α β : Type} {m : M α} {k : M β} {n : List (Bool × Bytes)} {Q : α → Prop}
     (hm : ∀ b, Spec POk (J b) (J b) m Q) (hk : TSpecI k n) : TSpecI (m >>= fun _ => k) n := by
@@ -251,7 +378,7 @@ theorem top_visitSoyFile (f : SoyFile) (h : FileWN f) : TSpecI (visitSoyFile sk 
   refine TSpecI.step (fun _ => s_atOther) ?_
   refine TSpecI.step (fun _ => s_indentP) ?_
   refine TSpecI.step (fun _ => s_fx _) ?_
-  refine TSpecI.stepTop (fun _ => TSpec.emitTop (p := .comment f.name) h.1) ?_
+  refine TSpecI.stepTop (fun _ => TSpec.emitTop (p := .comment (commentName f.name)) (commentName_safe f.name)) ?_
   refine TSpecI.step (fun _ => s_fx _) ?_
   refine TSpecI.step (fun _ => s_nl) ?_
   refine TSpecI.step (fun _ => s_indentP) ?_
@@ -259,7 +386,7 @@ theorem top_visitSoyFile (f : SoyFile) (h : FileWN f) : TSpecI (visitSoyFile sk 
   refine TSpecI.step (fun _ => s_nl) ?_
   refine TSpecI.step (fun _ => s_indentP) ?_
   refine TSpecI.step (fun _ => s_nl) ?_
-  exact top_walkTop sk o f.body h.2
+  exact top_walkTop sk o f.body h
 
 end
 
